@@ -74,6 +74,9 @@ def gen_script(rng, n_steps, mode="stepper", starved=False):
     stack = 8 * slots * (max_secs + 1)
     if starved:
         stack = rng.choice([0, 0, 1, 2, rng.below(slots + 2), rng.below(3 * slots + 2)])
+        # which request fails depends on the kernel's thread order; the model allocates in slot
+        # order, which is the thread order only without a thread->slot permutation
+        order = order % 2
     lines = ["config %d %d %d %d %d" % (slots, cap, max_ev, order, stack)]
     if rng.chance(1, 8):
         lines.append("reseed")
@@ -293,8 +296,19 @@ def oracle(script, out, stepper=True):
                     err("step count not incremented by one")
                 if a and b and (a["ev"], a["tid"]) != (b["ev"], b["tid"]):
                     err("track identity changed during interaction")
+            # C16: after a failed allocation the track must be handed to the action REGISTERED as
+            # `physics-failure` (id looked up by label in the harness), be unchanged, and no
+            # other model's interaction may be applied in the same step
+            if "FAILED-WRONG-ACTION" in d["head"]:
+                err("failed interaction stamped with an action other than the registered "
+                    "physics-failure (slot=got/expected): " + d["head"],
+                    "failed-interaction-wrong-action")
+            if "FOREIGN-MODEL-APPLIED" in d["head"]:
+                err("a model that was not selected (the secondary-free last model) was applied: "
+                    + d["head"], "failed-interaction-foreign-model")
             if "FAILED-NOT-NOOP" in d["head"]:
-                err("failed interaction changed the track: " + d["head"])
+                err("failed interaction changed the track: " + d["head"],
+                    "failed-interaction-not-noop")
         elif op == "efs" and prev:
             # ExtendFromSecondariesAction: error <=> queued + new secondaries > capacity
             need = prev["c"]["init"]
